@@ -178,6 +178,17 @@ pub fn small_seeds() -> Vec<Seed> {
         b.enc = aes(b"helloworld", 1, ae2);
         v.push(from_spec(&format!("ref-aes-big-{tag}"), &ArchiveSpec::plain(vec![a, b])));
     }
+    // contents whose CRC-32 coincides with special values (0, all ones, the local-header and the
+    // data-descriptor signature)
+    {
+        let a = EntrySpec::simple(b"crc-zero-stored", 0, Content::Forged { seed: 1, len: 90, crc: 0 });
+        let b = EntrySpec::simple(b"crc-zero-deflate", 8, Content::Forged { seed: 2, len: 300, crc: 0 });
+        let c = EntrySpec::simple(b"crc-ones", 0, Content::Forged { seed: 3, len: 40, crc: 0xFFFF_FFFF });
+        let d = EntrySpec::simple(b"crc-lfh-signature", 8, Content::Forged { seed: 4, len: 120, crc: 0x0403_4b50 });
+        let mut e = EntrySpec::simple(b"crc-dd-signature", 0, Content::Forged { seed: 5, len: 33, crc: 0x0807_4b50 });
+        e.desc = Desc::NoSig32;
+        v.push(from_spec("ref-special-crc", &ArchiveSpec::plain(vec![a, b, c, d, e])));
+    }
     v
 }
 
